@@ -261,7 +261,9 @@ bool operator==(const Vector& v1, const Vector& v2)
 
 double Angle(const Vector& v1, const Vector& v2)
 {
-	return acos(v1 * v2 / (v1.Norm() * v2.Norm()));
+	// Rounding errors can push the cosine of (anti)parallel vectors slightly beyond +-1, where acos returns NaN.
+	double cos_angle = v1 * v2 / (v1.Norm() * v2.Norm());
+	return acos(std::max(-1.0, std::min(1.0, cos_angle)));
 }
 
 // 2. Coordinates
